@@ -15,7 +15,7 @@ CHECKS = {
         "the parameter table), and the mixed-radix lemmas are proved by z3 for the model's MAX_PD (symbolic nq, mesh sizes, "
         "pd_start/pd_stop, cutoff, up to 5 nested loops).  Python side: DllKernel._call_kernel chunk loop (invariant over the "
         "100-step chunks), Kernel.Fq/Iq normalisation, scale and background, from the AST of the current tree.",
-   note="doubles are reals, int32 mathematical; quick tier proves 7 representative kernels (1-D/2-D, Fq/Iq, oriented symmetric and "
+   note="[details.make_details (1..4 parameters x loop budget, thorough ..6) and make_kernel_args (1..3 non-magnetic parameters) are proved symbolically: slots, strides, num_eval, layout of the values vector] doubles are reals, int32 mathematical; quick tier proves 7 representative kernels (1-D/2-D, Fq/Iq, oriented symmetric and "
         "triaxial, MAX_PD 0..5), thorough all compiled models; _Imagnetic kernels and OpenCL/CUDA back ends not under contract; "
         "make_kernel_args/make_details (numpy argsort/cumprod) is a bounded run-time contract over all builtin (model, parameter) "
         "pairs; get_mesh/_pop_par_weights under C10, weights under C02",
@@ -111,7 +111,7 @@ CHECKS = {
         "'parameter vector = P(step)' at every call of form/form_volume/form_radius, num_active 1..5 enumerated (= MAX_PD), all "
         "sizes and values symbolic; the num_active==0 shortcut is its own obligation.  Agreement of the two execution paths then "
         "follows by transitivity through the common specification.",
-   note="products of reals and div/mod by symbolic divisors are uninterpreted in this VC (congruence suffices; the decode lemmas are "
+   note="[also under contract since the second seed round: PyKernel.__init__ (parameter vector spans values[2:nvalues], volume argument views) for three python-model tables; duplicate calling names (implicit, vector-expanded, magnetic) as a bounded table] products of reals and div/mod by symbolic divisors are uninterpreted in this VC (congruence suffices; the decode lemmas are "
         "proved separately); hypothesis VALID(P) <=> form(P) has no NaN links the validity mechanisms; PyKernel.__init__ argument views "
         "and definition validation (check_angles/check_duplicates) are bounded run-time contracts over enumerated tables; the C side "
         "is C01",
@@ -123,7 +123,7 @@ CHECKS = {
         "call_kernel, DataMixin._calc_theory (background added after smearing, 0 for sesans) and bumps create_parameters are "
         "executed symbolically; 'unknown name => TypeError, nothing else raises', 'exactly the parameter's own keys are consumed', "
         "'orientation inactive in 1-D', 'theory = apply(kernel at background 0) + background' and the frames are discharged by z3.",
-   note="weights.get_weights, make_kernel_args, the kernel and resolution.apply replaced by their contracts; bumps Parameter is a "
+   note="[also under contract: SasviewModel.setParam (26 legal/illegal names: exactly the entry is set, unknown or misspelt names raise and leave no stray key) and the Iq/Iqxy convenience functions (q and resolution arguments reach the documented slots of the data object)] weights.get_weights, make_kernel_args, the kernel and resolution.apply replaced by their contracts; bumps Parameter is a "
         "stub contract (bumps is not installed); SasviewModel object plumbing and numerical equality of the interfaces end to end "
         "are not under contract (only the shared mesh/theory functions are)",
    technique=TECH + "Python AST -> VCs -> z3 with finite-map inputs; witnesses replayed on get_mesh/_pop_par_weights",
@@ -134,7 +134,7 @@ CHECKS = {
         "C10/C07/C08); (b) functional post-state - after DllKernel._call_kernel every slot of the reused result buffer equals the "
         "full-mesh sum whatever its previous contents (loop invariant over the 100-step chunks, symbolic num_eval), including "
         "the empty mesh, and the arrays Kernel.Fq returns do not alias that buffer.",
-   note="compiled kernel replaced by its contract (C01); 'bit-identical to a fresh process' (floating point, OS) is not claimed; "
+   note="[also under contract: sasview_model.load_custom_model (class built from the current module in all four cache situations), weights.Dispersion.__init__ (class-level defaults unmodified), SasviewModel.clone (no shared mutable table); returned arrays of Kernel.Fq do not alias the reused buffer (with replay)] compiled kernel replaced by its contract (C01); 'bit-identical to a fresh process' (floating point, OS) is not claimed; "
         "SasviewModel class-level caches are not under contract yet",
    technique=TECH + "Python AST -> VCs with loop invariants -> z3; frame and stale-buffer witnesses replayed on real kernels",
    design="DESIGN.md 6 C11"),
@@ -169,7 +169,7 @@ CHECKS = {
         "identity (normal form modulo sin^2+cos^2=1, sqrt^2, exp laws) for symbolic node indices, F2=F1^2 exactly for symmetric "
         "shapes; every 'equivalent volume sphere' mode satisfies M_4PI_3 R^3 = form_volume (cbrt^3=x); Kernel.Fq/Iq normalisation "
         "and the amplitude kernels (F,F^2 interleaving, shell-volume slot, chunk restart) by the C01 contracts.",
-   note="the inequality itself follows from the structure by the weighted Cauchy-Schwarz lemma (Lean) with the measured node-weight "
+   note="[also: radius_effective has no zero divisor for positive size parameters in every selectable mode (cvc safety obligations, 120 discharged, superball undecided and not claimed); Kernel.Fq results do not alias the reused buffer] the inequality itself follows from the structure by the weighted Cauchy-Schwarz lemma (Lean) with the measured node-weight "
         "sum; models whose Fq leaves the subset (vector parameters, products of sums, do-while) get a bounded numeric stand-in "
         "(listed, not counted); q->0 equality, positivity and finiteness only through the replay grid",
    technique=TECH + "clang JSON AST -> Sigma-normal forms -> polynomial identities / z3; replay grid on call_Fq",
@@ -183,7 +183,7 @@ CHECKS = {
         "core.parse_dtype is executed for every spelling x platform with symbolic model flags and GPU availability (stated type, '!' "
         "forces dll, fast flag, default rule); kerneldll.dll_path is injective in (tag, precision); kerneldll.make_dll on a ghost file "
         "system converts and compiles the given source at the precision that names the library.",
-   note="alphabet 7-bit ASCII; the step from the regex lemmas to token streams is a paper argument (DESIGN.md), cross-checked by the "
+   note="[also under contract: DllModel._load_dll C argument types per precision; load_dll builds the DllModel with the precision of the library] alphabet 7-bit ASCII; the step from the regex lemmas to token streams is a paper argument (DESIGN.md), cross-checked by the "
         "bounded token-level differential against a reference C tokenizer on all 61 generated model sources x 2 precisions and on "
         "fragments; compiled float32/long double kernels are compared with double on a few models (all single-safe models in the "
         "thorough tier) - bounded, not counted; four recorded findings (leading-zero and hexadecimal constants, string literal "
@@ -233,7 +233,7 @@ CHECKS = {
         "publishes nothing, R the returned path is the final name; separately, the invariant 'final name absent or complete library "
         "of the named source' is inductive under G (z3) and implies what a concurrent reader (exists-then-dlopen) and a restart after a "
         "kill rely on; load_dll/DllModel._load_dll open exactly the returned path.",
-   note="not a schedule exploration: the step from 'every process satisfies G' to 'I holds in every interleaving / after every kill' is "
+   note="[move/copy into the final name count as non-atomic writes; further scripted stand-ins: failed build after another process published, publication primitive with TMPDIR on a second file system] not a schedule exploration: the step from 'every process satisfies G' to 'I holds in every interleaving / after every kill' is "
         "the standard rely/guarantee argument (stated, not mechanised beyond the inductiveness lemma); os.replace atomicity, compiler "
         "writes only its output, mkdtemp/mkstemp freshness are assumptions; bounded stand-ins with real processes (scripted compiler "
         "stopped half way then killed; 4-8 concurrent first loads on an empty cache) are listed and not counted",
